@@ -7,14 +7,48 @@ from ..core import CaseResult, outcome
 ID = "C07"
 LEVEL = "other"
 RULE = ("random patterns generated from the documented subset (literals, escaped metacharacters, '.', sets and negated "
-        "sets with ranges, alternation, nested groups, * + ? {m} {m,n} incl. m=0 and m=n, quantifier on group/set/escape, "
-        "\\d \\s \\w) x all strings of length <=3 over a 7-character printable alphabet plus random longer ones; "
+        "sets with ranges (incl. ranges between arbitrary printable characters, metacharacters as endpoints), alternation, nested groups, * + ? {m} {m,n} incl. m=0 and m=n, quantifier on group/set/escape, "
+        "\\d \\s \\w) x all strings of length <=3 over a 7-character printable alphabet plus random longer ones and probe characters derived from the pattern (range endpoints, their neighbours, midpoints); "
         "PythonRegex(p).accepts(s) is compared with re.fullmatch(p, s); patterns rejected by re.compile must be "
         "rejected. Non-trivial: pattern with >=2 operators.")
 EXPLANATION = "PythonRegex is a chain of textual rewrites whose specification is CPython's own re engine, which cannot be stated in Lean; every generated (pattern, string) instance is decided exactly by re.fullmatch / re.compile as the property itself prescribes. No Lean theorem is claimed for this property in this round (see DESIGN.md 6 C07)."
 THEOREMS = []
 ALPHA = ["a", "b", "c", "1", " ", "-", "+"]
 LITS = ["a", "b", "c", "1", "-", "\\+", "\\*", "\\.", "\\(", "\\)", "\\?", "\\|", "\\[", "\\]", " "]
+
+
+RANGE_ENDS = [chr(c) for c in range(0x21, 0x7f) if chr(c) not in "\\^-"]
+
+
+def set_escape(ch):
+    return "\\" + ch if ch in "[]" else ch
+
+
+def probe_chars(p):
+    """characters worth trying against `p`: its own characters, and for every range inside a set the two
+    endpoints, their neighbours and a midpoint"""
+    out = set(c for c in p if c.isprintable())
+    i, inset = 0, False
+    toks = []
+    while i < len(p):
+        c = p[i]
+        if c == "\\" and i + 1 < len(p):
+            toks.append((p[i + 1], inset, True))
+            i += 2
+            continue
+        if c == "[" and not inset:
+            inset = True
+        elif c == "]" and inset:
+            inset = False
+        toks.append((c, inset, False))
+        i += 1
+    for j in range(1, len(toks) - 1):
+        if toks[j] == ("-", True, False) and toks[j - 1][1] and toks[j + 1][1]:
+            lo, hi = ord(toks[j - 1][0]), ord(toks[j + 1][0])
+            for v in (lo - 1, lo, lo + 1, (lo + hi) // 2, hi - 1, hi, hi + 1):
+                if 0x20 <= v < 0x7f:
+                    out.add(chr(v))
+    return sorted(out)
 
 
 def gen_pat(rng, depth=3):
@@ -32,9 +66,13 @@ def gen_pat(rng, depth=3):
             k = rng.random()
             if k < 0.6:
                 items.append(rng.choice(["a", "b", "c", "1", "+", "*", "(", ")", "?", "."]))
-            elif k < 0.85:
+            elif k < 0.75:
                 lo, hi = sorted(rng.sample("abc", 2))
                 items.append(lo + "-" + hi)
+            elif k < 0.85:
+                # range over arbitrary printable endpoints (metacharacters are literal inside a set)
+                lo, hi = sorted(rng.sample(RANGE_ENDS, 2))
+                items.append(set_escape(lo) + "-" + set_escape(hi))
             else:
                 items.append(rng.choice(["\\d", "\\-", "\\]"]))
         neg = "^" if rng.random() < 0.2 else ""
@@ -94,6 +132,10 @@ def run_case(case, drv):
     rng = random.Random(case["sseed"])
     strs = ["".join(w) for n in range(0, 3) for w in itertools.product(ALPHA, repeat=n)]
     strs += ["".join(rng.choice(ALPHA) for _ in range(rng.randint(3, 5))) for _ in range(25)]
+    probes = probe_chars(p)
+    strs += [c for c in probes if c not in ALPHA]
+    pool = ALPHA + probes
+    strs += ["".join(rng.choice(pool) for _ in range(rng.randint(2, 4))) for _ in range(15)]
     for s in strs:
         want = cre.fullmatch(s) is not None
         g = outcome(lambda s=s: pr.accepts(list(s)), limit=5.0)
